@@ -1353,6 +1353,23 @@ theorem step_lininv (s : State) (op : Op) (h : LinInv s) (ho : OriginInv s) : Li
         split
         · exact dropCheckout_lininv h r
         · exact h
+  | cancelOff r =>
+    simp only [step]
+    cases hh : s.held r with
+    | some p =>
+      simp only []
+      have hs : Sub { s with held := upd s.held r none } s := by
+        refine Sub.of_fields rfl (fun _ _ h => h) (fun _ chk _ h hc => ⟨chk, h, hc⟩) ?_ (fun _ _ _ _ h => h) (fun _ _ => Nat.le_refl _)
+        intro r' p' hp'
+        by_cases e : r' = r
+        · subst e; simp at hp'
+        · simpa [upd, e] using hp'
+      refine abortTask_lininv (dropPooled_lininv (h.sub_eq hs rfl) p ?_ (h.live p.conn (Or.inr ⟨.held r, p, hh, rfl⟩))) _
+      intro hn
+      apply h.lin.nowhere_of_removed hs (l := .held r) hn ⟨p, hh, rfl⟩
+      rintro ⟨p', hp', _⟩
+      simp at hp'
+    | none => exact h
   | dialDone r o =>
     simp only [step]
     split
